@@ -232,6 +232,20 @@ func genEpisode(r *hx.Rng, ip *interp, run func(string) string, n int, st *genSt
 			if r.Chance(1, 10) {
 				d = stakePool[r.Intn(len(stakePool))]
 			}
+			if m := service.MinerManagerImpl.GetMiner(id, e.ip.w.adb); m != nil && r.Chance(1, 2) {
+				// boundary of re-activation: land exactly on / just above / just below the minimum
+				min := uint64(400)
+				if m.Type == 1 {
+					min = 2000
+				}
+				if m.Stake <= min {
+					d = min - m.Stake + uint64(r.Intn(3))
+					if d > 0 && r.Chance(1, 3) {
+						d--
+					}
+					st.inc("add-at-reactivation-boundary")
+				}
+			}
 			run(fmt.Sprintf("add %s %s %d", h(e.src()), h(id), d))
 		case k < 70:
 			id, stake, ac, typ, ok := e.knownMiner()
